@@ -196,9 +196,15 @@ def run_case(case, ctx):
     if case["binned"] and rng.random() < 0.4:
         k = int(rng.integers(2, 7))
         ctx.tag("multi:2..6_points")
-        if rng.random() < 0.6:
-            factors = [1.0] + [float(2.0 ** int(rng.integers(-2, 2)) * int(rng.integers(1, 4))) for _ in range(k - 1)]
+        u = rng.random()
+        if u < 0.4:
+            # powers of two scale loads and class edges without rounding: judged without any guard
+            factors = [1.0] + [float(2.0 ** int(rng.integers(-2, 3))) for _ in range(k - 1)]
             ctx.tag("multi:dyadic")
+        elif u < 0.6:
+            # 0.75, 1.5, 3, 6 ...: v*f and the edges i/n*(max*f) round differently, a load on a class edge may flip
+            factors = [1.0] + [float(2.0 ** int(rng.integers(-2, 2)) * int(rng.integers(1, 4))) for _ in range(k - 1)]
+            ctx.tag("multi:general_ratio")
         else:
             factors = [1.0] + rng.uniform(0.3, 3.0, size=k - 1).round(3).tolist()
             ctx.tag("multi:general_ratio")
